@@ -107,6 +107,8 @@ func typeName(t string) string {
 		return "K"
 	case "enum:KWide.K":
 		return "KWide.K"
+	case "enum:KSwap.K":
+		return "KSwap.K"
 	case "enum:E":
 		return "E"
 	}
@@ -247,6 +249,16 @@ func render(v version) (map[string]string, map[string]int) {
 	w.l("", "K_UNSPECIFIED = 0;")
 	w.l("", "K_ONE = 1;")
 	w.l("", "K_TWO = 2;")
+	w.close()
+	w.close()
+	w.endBlock()
+
+	// (every name and every number of KWide.K, two of them bound the other way round)
+	w.open("message:KSwap", "message KSwap {")
+	w.open("", "enum K {")
+	w.l("", "K_UNSPECIFIED = 0;")
+	w.l("", "K_ONE = 2;")
+	w.l("", "K_TWO = 1;")
 	w.close()
 	w.close()
 	w.endBlock()
